@@ -100,7 +100,9 @@ struct Env {
         if (pdfkind == "ridge") { double v = 1.0 / (1.0 + std::fabs(x[0] - center[0]) * pdfscale); return logform ? std::log(v) : v; }
         return logform ? 0.0 : 1.0;
     }
+    bool throw_pdf_once = false; // fault: the probability callback fails at its next call (as the C/Python wrappers do on a callback error)
     void pdf(const std::vector<double> &cand, std::vector<double> &vals) {
+        if (throw_pdf_once) { throw_pdf_once = false; if (st) st->inc("fault.pdf_callback_throws"); throw std::runtime_error("simulated failure of the probability callback"); }
         size_t m = cand.size() / d;
         PdfCall c; c.cand = cand;
         // "The values vector should not be resized": fill what we are given
@@ -332,6 +334,7 @@ public:
         p["split"] = w.chance(0.7) ? w.range(0, total) : -1; // -1: do not split
         p["draw_seed"] = (long long)(w.next() >> 1);
         p["c_interface"] = w.chance(0.2);
+        p["pdf_fails_first"] = w.chance(0.08);
         p["posterior"] = w.pick<std::string>({"none", "none", "none", "merged", "three"}); p["priorscale"] = w.pick<double>({0.1, 1.0, 3.0});
         if (w.chance(0.3)) { // a second run on the same state object after the caller re-seeded the chains
             Json rs = Json::object(); rs["how"] = w.chance(0.5) ? "function" : "vector";
@@ -399,6 +402,20 @@ public:
         std::vector<std::vector<double>> allowed; // initial states + proposals accepted by the domain test
         for (size_t i = 0; i < n; i++) allowed.emplace_back(init.begin() + i * d, init.begin() + (i + 1) * d);
         size_t callno = 0;
+        if (p.getb("pdf_fails_first") && !r.capi) {
+            // the very first evaluation of the probability (initialisation of the chain values) fails; the caller catches the error and
+            // retries on the same state object: the retry must behave as a first call (nothing may have been marked as initialised)
+            r.env.resetLogs(); r.env.throw_pdf_once = true;
+            size_t h0 = r.st->getNumHistory(); bool threw = false;
+            try { r.callSample(calls.empty() ? 1 : calls[0].first, calls.empty() ? 1 : calls[0].second); } catch (std::runtime_error &) { threw = true; }
+            r.env.throw_pdf_once = false;
+            if (threw) {
+                st.inc("reach.first_pdf_evaluation_failed");
+                if (r.st->getNumHistory() != h0) { out.fail("history-size", "C15/history-size/after-failed-callback", "samples were recorded by a call that failed in its first probability evaluation"); return false; }
+                // the random stream restarts for the retry: re-create the environment streams so that the reference twin sees the same draws
+                setupEnv(r.env, p, st);
+            }
+        }
         for (auto const &c : calls) {
             if (reseed && callno++ == 1) {
                 // the caller re-seeds the chains between two runs on the same state object (both documented overloads);
